@@ -10,6 +10,7 @@
 import MpirProofs.Lemmas.AliasShift
 import MpirProofs.Lemmas.AliasBits
 import MpirProofs.Lemmas.AliasRoot
+import MpirProofs.Lemmas.AliasShift2
 namespace Mpir.AliasMem
 open Mpir
 
@@ -47,6 +48,28 @@ example : look2 (tdiv_q_2exp 1 1 64 exSt2) 2 = .ok [(2 ^ 200 + 12345, 4, 0), (-6
 -- negative example: the model refuses a shift in the forbidden direction (what an in-place mpn_lshift towards LOWER
 -- addresses would be)
 example : (match mpn_lshift 0 0 0 1 3 5 exSt2 with | .error e => e | .ok _ => "ok") = "ub:mpn_lshift overlap" := by decide
+
+/-- mpz_cdiv_q_2exp (`dir = 1`) and mpz_fdiv_q_2exp (`dir = -1`) (mpz/cfdiv_q_2exp.c): `w = u` in place — the limbs that
+    the shift is going to skip (and, with w = u, overwrite) are inspected BEFORE it (:57-62); the increment may carry into
+    limb wsize, for which `MPZ_REALLOC (w, wsize + 1)` made room.  `1 ≤ ALLOC (w)` is MPIR's object invariant (the
+    `PTR(w)[0] = 1` of :47 is done without a realloc).  The result is ⌈u / 2^cnt⌉ resp. ⌊u / 2^cnt⌋ (`DivZ.specQ`). -/
+theorem cfdiv_q_2exp_ptr_spec {s : St} (h : Inv s) {w u : Nat} (hw : w < s.nv) (hu : u < s.nv) (cnt : Nat) (dir : Int)
+    (hdir : dir = 1 ∨ dir = -1) (ha : 1 ≤ s.alloc w) :
+    ∃ s', cfdiv_q_2expV .c w u cnt dir s = .ok s' ∧ Inv s' ∧ s'.nv = s.nv ∧
+      s'.value w = DivZ.specQ dir (s.value u) ((2 ^ cnt : Nat) : Int) ∧
+      ∀ i, i < s.nv → i ≠ w → s'.value i = s.value i := by
+  have := cfdiv_q_2exp_ok h hw hu cnt dir hdir ha
+  rw [cfq_spec _ _ _ hdir] at this
+  exact this
+
+example : look2 (cdiv_q_2exp 0 0 70 exSt2) 1 = .ok [((2 ^ 200 + 12345) / 2 ^ 70 + 1, 4, 0)] := by decide
+example : look2 (fdiv_q_2exp 1 1 64 exSt2) 2 = .ok [(2 ^ 200 + 12345, 4, 0), (-65, 2, 1)] := by decide
+-- the increment carries into a new limb: ⌈(2^128 - 1) / 4⌉ = 2^126
+example : look2 (cdiv_q_2exp 2 2 2 (ofInts [0, 0, 2 ^ 128 - 1])) 3 = .ok [(0, 1, 0), (0, 1, 1), (2 ^ 126, 3, 3)] := by decide
+-- negative example: the low limbs inspected AFTER the shift (cfdiv_q_2exp.c:57-62 moved below :72), w = u = 2^128 + 5,
+-- cnt = 64: limb 0 has been overwritten by the zero limb 1, the rounding is lost (2^64 instead of 2^64 + 1)
+example : look2 (cfdiv_q_2expV { roundBeforeShift := false } 0 0 64 1 (ofInts [2 ^ 128 + 5])) 1 = .ok [(2 ^ 64, 3, 0)] := by decide
+example : look2 (cdiv_q_2exp 0 0 64 (ofInts [2 ^ 128 + 5])) 1 = .ok [(2 ^ 64 + 1, 3, 0)] := by decide
 
 /-! ## mpz_and, mpz_xor, mpz_com (and the plumbing shared with mpz_ior) -/
 
